@@ -5,7 +5,7 @@ import common
 from common import Inconclusive, log
 
 BINARIES = ("worker",)
-PLANS = {"C14": None, "C04": None, "C20": None}
+PLANS = {"C14": None, "C04": None, "C20": None, "C18": None}
 LEVEL = "model_checking"
 DEFAULT_ASSUMPTIONS = ["fake nodes render CLUSTER NODES / INFO text from the abstract node records faithfully",
                        "the probe round is driven deterministically (held ticker, refresher-idle hook)", "TLC evaluates Topology!TableOf correctly"]
@@ -239,7 +239,74 @@ def run_generic(pid, tier, seed):
         shutil.rmtree(wd, ignore_errors=True)
 
 
+UNIVERSE = ["127.0.0.1", "127.0.0.2", "127.0.0.3", "127.0.0.4"]
+
+
+def auth_scenario(sid, hist):
+    """hist: list of (enable, [ips], mode). After every edit, one client per address of the universe connects and sends a GET."""
+    steps = []
+    cn = 0
+    # start from a known state
+    hist = [(False, [], "inplace")] + list(hist)
+    for k, (enable, ips, mode) in enumerate(hist):
+        steps.append({"stim": [st(op="authfile", kind=mode, count=1 if enable else 0, reqs=[{"k": "", "slots": UNIVERSE, "args": list(ips), "dups": []}])],
+                      "settle": False, "noIter": True})
+    # the last state is the one the clients experience (earlier ones are checked through the settled admitted set)
+    for ip in UNIVERSE:
+        cn += 1
+        c = "c%d" % cn
+        steps.append(step([st(op="open", c=c, src=ip)]))
+        steps.append(step([st(op="send", c=c, reqs=[{"k": "get", "slots": ["A"], "args": [], "dups": [-1]}, {"k": "ping", "slots": [], "args": [], "dups": []}])]))
+    steps += [step([st(op="answer", n=n, kind="ok", count=6) for n in ("n1", "n2", "n3")]) for _ in range(2)]
+    return {"id": sid, "role": "", "steps": steps}
+
+
+def run_c18(tier, seed):
+    wd = common.scratch()
+    try:
+        q = tier == "quick"
+        rng = random.Random("auth/%s" % seed)
+        states = []
+        for enable in (True, False):
+            for mask in range(16):
+                states.append((enable, [UNIVERSE[i] for i in range(4) if mask >> i & 1]))
+        scs = []
+        # every single file state, written in place and by rename
+        for k, (en, ips) in enumerate(states):
+            for mode in ("inplace", "rename"):
+                if q and (k + (mode == "rename")) % 3:
+                    continue
+                scs.append(auth_scenario("auth-state-%d-%s" % (k, mode), [(en, ips, mode)]))
+        # histories of 2-4 edits: add, remove, enable, disable, rewrite by rename
+        for k in range(40 if q else 1500):
+            h = []
+            for _ in range(rng.choice([2, 3, 4])):
+                en, ips = rng.choice(states)
+                h.append((en, ips, rng.choice(["inplace", "inplace", "rename"])))
+            scs.append(auth_scenario("auth-hist-%d" % k, h))
+        # directed: remove while disabled then enable; remove one of two; add then remove
+        A, B = UNIVERSE[0], UNIVERSE[1]
+        scs.append(auth_scenario("auth-remove-while-disabled", [(True, [A, B], "inplace"), (False, [A], "inplace"), (True, [A], "inplace")]))
+        scs.append(auth_scenario("auth-remove-one", [(True, [A, B], "inplace"), (True, [A], "inplace")]))
+        scs.append(auth_scenario("auth-remove-by-rename", [(True, [A, B], "rename"), (True, [B], "rename")]))
+        scs.append(auth_scenario("auth-empty-list", [(True, [A], "inplace"), (True, [], "inplace")]))
+        cfg = {"masters": 3, "mode": "step", "authIpDir": "auto"}
+        r = common.replay_and_validate(cfg, scs, wd, "auth", spec="AuthTrace", cfgfile="AuthTrace.cfg", par=8)
+        viol = [v for v in r["viol"] if v["prop"] in ("C18", "DEAD")]
+        cov = {"states": r["states"], "transitions": r["transitions"], "traces": r["traces"], "events": r["events"], "crashes": r["crashes"] + r["dead"],
+               "unrealised": r["unrealised"], "harness_errors": r["harness_errors"], "nontrivial": len(scs), "other": {},
+               "samples": [{"scenario_id": scs[0]["id"], "first_steps": scs[0]["steps"][:4]}, {"scenario_id": scs[-1]["id"], "first_steps": scs[-1]["steps"][:4]}],
+               "rule": "all 32 whitelist file states over 4 addresses, written in place and by rename, and random histories of 2-4 successive states; after every "
+                       "edit the live admitted set is read back once it has settled (<= 3 s), and after the last edit one client per address connects (bound "
+                       "to that source address), sends GET and PING; distinct scenarios counted"}
+        return viol, cov
+    finally:
+        shutil.rmtree(wd, ignore_errors=True)
+
+
 def run(pid, tier, seed):
+    if pid == "C18":
+        return run_c18(tier, seed)
     return run_generic(pid, tier, seed)
 
 
@@ -251,6 +318,9 @@ def replay(pid, payload):
             consts["DisableSlave"] = "TRUE"
         if payload["cfg"].get("password"):
             consts["HasPassword"] = "TRUE"
+        if pid == "C18":
+            r = common.replay_and_validate(payload["cfg"], [payload["scenario"]], wd, "replay", par=1, spec="AuthTrace", cfgfile="AuthTrace.cfg")
+            return [v for v in r["viol"] if v["prop"] in (pid, "DEAD")]
         r = common.replay_and_validate(payload["cfg"], [payload["scenario"]], wd, "replay", par=1, spec="TopoTrace", cfgfile="TopoTrace.cfg", consts=consts)
         return [v for v in r["viol"] if v["prop"] in (pid, "DEAD")]
     finally:
